@@ -15,11 +15,16 @@ import (
 type Interner struct {
 	m    map[string]int
 	keys []string
+	// EmptyIsZero maps the empty string to 0 (used for values: empty = absent for Get).
+	EmptyIsZero bool
 }
 
 func NewInterner() *Interner { return &Interner{m: map[string]int{}} }
 
 func (in *Interner) ID(s string) int {
+	if in.EmptyIsZero && s == "" {
+		return 0
+	}
 	if v, ok := in.m[s]; ok {
 		return v
 	}
@@ -115,7 +120,9 @@ type Canon struct {
 }
 
 func NewCanon() *Canon {
-	return &Canon{Hash: NewInterner(), Ident: NewInterner(), Key: NewInterner(), Val: NewInterner(), LogID: NewInterner(), Cid: &Ranker{}}
+	c := &Canon{Hash: NewInterner(), Ident: NewInterner(), Key: NewInterner(), Val: NewInterner(), LogID: NewInterner(), Cid: &Ranker{}}
+	c.Val.EmptyIsZero = true
+	return c
 }
 
 type rawOp struct {
